@@ -22,10 +22,11 @@ for dirpath, dirnames, filenames in os.walk(base):
             if "." in rel:
                 continue  # generated schema packages: no rules look inside their functions
             tree = ast.parse(open(p).read())
+            core._augment(tree)
             d = {}
             for q, f in core.outer_functions(tree):
-                digest, names, _ = core.function_shape(f)
-                d[q] = {"shape": digest, "names": names}
+                digest, names, _, flags, _c = core.function_shape(f)
+                d[q] = {"shape": digest, "names": names, "flags": flags}
             out[rel] = d
 json.dump(out, open(core.BASELINE_NAMES, "w"), indent=0, sort_keys=True)
 print(sum(len(v) for v in out.values()), "functions in", len(out), "modules")
